@@ -17,6 +17,11 @@ change, and a source change cannot be hidden by run-time mutation):
     equal membership;
   * every payload class statement with `MESSAGE_TYPE = MessageType.X` / `MESSAGE_VERSION = <int>` in its body must
     equal the run-time class attributes, and vice versa.
+  * EVERY module of the package (python/fusion_engine_client/**/*.py, not only messages/) is scanned by
+    tools/c03_py_alias.py for statements that modify the two sets or the registry dictionaries after their definition,
+    through any alias (local name, import-as, parameter default, attribute, argument of a modifying function); every
+    site found is listed in the table (`mutation_sites`, Lean `mutationSites`) together with the outcome of executing
+    it in a fresh interpreter (tables read before and after).
 A construct the reader does not understand is a TranslateError (exit 2, message on stdout).  A difference between the
 source view and the run-time view is recorded in the table under `source_vs_runtime` (the table carries the run-time
 values, which are what the package does); the check reports every such entry.
@@ -30,6 +35,7 @@ import sys
 
 sys.path.insert(0, os.path.dirname(os.path.abspath(__file__)))
 from c03_common import TranslateError, code, lean_nat, lean_int, lean_ident, write_if_changed, sha256_files  # noqa: E402
+import c03_py_alias as pa  # noqa: E402
 
 PKG = 'fusion_engine_client.messages'
 # source-vs-run-time differences found by the cross-check (reported, the run-time value is what the table carries)
@@ -38,6 +44,44 @@ PROBLEMS = []
 
 def source_paths(repo):
     return sorted(glob.glob(os.path.join(repo, 'python', 'fusion_engine_client', 'messages', '*.py')))
+
+
+def package_source_hashes(repo):
+    """sha256 of every module of the package, keyed by the path relative to python/fusion_engine_client."""
+    import hashlib
+    root = os.path.join(repo, 'python', 'fusion_engine_client')
+    res = {}
+    for p in pa.package_paths(repo):
+        with open(p, 'rb') as f:
+            res[os.path.relpath(p, root)] = hashlib.sha256(f.read()).hexdigest()
+    return res
+
+
+def mutation_sites(repo):
+    """Static scan of the whole package + one execution per (module, callable) holding a site, each in a fresh interpreter."""
+    import subprocess
+    r = pa.scan(repo)
+    if r['unreadable']:
+        raise TranslateError(r['unreadable'][0].split(':')[0], 'module of the package cannot be parsed: %s' % r['unreadable'][0])
+    demos = {}
+    env = dict(os.environ, PYTHONPATH=os.path.join(repo, 'python'), PYTHONDONTWRITEBYTECODE='1')
+    for s in r['sites']:
+        key = (s['module'], s['callable'])
+        if key not in demos:
+            if len(demos) >= 12:
+                demos[key] = {'demonstrated': False, 'why': 'not executed (more than 12 sites)'}
+            else:
+                try:
+                    p = subprocess.run([sys.executable, os.path.abspath(pa.__file__), '--demo', repo, s['module'], s['callable']],
+                                       env=env, stdout=subprocess.PIPE, stderr=subprocess.DEVNULL, text=True, timeout=180,
+                                       stdin=subprocess.DEVNULL)
+                    line = [ln for ln in p.stdout.split('\n') if ln.startswith('DEMO-RESULT: ')]
+                    demos[key] = json.loads(line[-1][len('DEMO-RESULT: '):]) if line else {
+                        'demonstrated': False, 'why': 'execution ended without a result (exit status %s)' % p.returncode}
+                except subprocess.TimeoutExpired:
+                    demos[key] = {'demonstrated': False, 'why': 'execution timed out'}
+        s['demo'] = demos[key]
+    return r
 
 
 # ---- AST side -----------------------------------------------------------------------------------------
@@ -306,7 +350,14 @@ def extract(repo):
                              'version': None if ver is None else int(ver)})
         if ver is None:
             raise TranslateError(qual, 'registered class without MESSAGE_VERSION')
+    scan = mutation_sites(repo)
+    for s in scan['sites']:
+        code(s['object'])
+        code(s['file'])
     table = {
+        'mutation_sites': scan['sites'],
+        'package_files_scanned': scan['files'],
+        'package_sources': package_source_hashes(repo),
         'enums': sorted(out_enums, key=lambda e: (e['kind'], e['module'], e['name'])),
         'command': [list(x) for x in r_sets['COMMAND_MESSAGES']],
         'response': [list(x) for x in r_sets['RESPONSE_MESSAGES']],
@@ -327,7 +378,8 @@ def extract(repo):
 # ---- Lean emission ------------------------------------------------------------------------------------
 def to_lean(t):
     L = ['/-',
-         'GENERATED by tools/c03_py_extract.py from python/fusion_engine_client/messages/*.py - do not edit.',
+         'GENERATED by tools/c03_py_extract.py from python/fusion_engine_client/messages/*.py (mutationSites: from every',
+         'module of python/fusion_engine_client) - do not edit.',
          'Names are Nat codes (big-endian value of the UTF-8 bytes).  Values are those of the imported working-tree',
          'package, cross-checked against the class bodies / set displays seen by ast.parse.',
          '-/',
@@ -367,6 +419,15 @@ def to_lean(t):
     for k, c in enumerate(t['registry']):
         L.append('  (%s, %s, %s)%s -- %s' % (lean_int(c['type']), lean_nat(c['name']), lean_int(c['version']),
                                              ',' if k + 1 < len(t['registry']) else '', c['name']))
+    L.append(']')
+    L.append('')
+    L.append('/-- every statement of python/fusion_engine_client/**/*.py that modifies COMMAND_MESSAGES / RESPONSE_MESSAGES / the')
+    L.append('registry dictionaries after their definition, through any alias (tools/c03_py_alias.py): (object, file, line) -/')
+    L.append('def mutationSites : List (Nat × Nat × Nat) := [')
+    ms = t.get('mutation_sites', [])
+    for k, s in enumerate(ms):
+        L.append('  (%s, %s, %d)%s -- %s:%d %s' % (lean_nat(s['object']), lean_nat(s['file']), s['line'],
+                                                   ',' if k + 1 < len(ms) else '', s['file'], s['line'], s['statement'][:100]))
     L.append(']')
     L += ['', 'end FeVerif.C03.Py', '']
     return '\n'.join(L)
